@@ -64,3 +64,25 @@ Section Static.
     specialize (H m Hm). unfold mktA in H. rewrite Forall_forall in H. exact (H o Ho t Ht).
   Qed.
 End Static.
+
+(* C07 "until then a new order is pending with no fills", over whole runs: in every reachable state an order whose placement has not been
+   executed yet is exactly as it was created - no fragments, nothing matched, cancelled, lapsed or voided, no bet id - and is not among the
+   statuses the matcher looks at *)
+Section StaticPending.
+  Variables (tb : tiebreak) (cf : config) (n : Z) (sc : script) (es : list event) (s : sim).
+  Hypothesis Hcfg : cfg_ok_b cf = true.
+  Hypothesis Hinit : initial_b s = true.
+  Hypothesis Hev : forallb (event_b2 sc n) es = true.
+  Hypothesis Hkeys : keys_ok_b sc n es = true.
+
+  Theorem run_unplaced_untouched_static m o :
+    In m (s_markets (fold_left (step tb cf n sc) es s)) -> In o (mk_orders m) -> so_placed o = None ->
+    so_frags o = [] /\ so_matched o = 0 /\ so_cancelled o = 0 /\ so_lapsed o = 0 /\ so_voided o = 0 /\ so_bet o = None /\
+    status_in (so_status o) (cf_mw_live cf) = false.
+  Proof.
+    intros Hm Ho Hp. destruct (keys_ok_b_sound sc n es Hkeys) as [Hd Hk].
+    assert (He : Forall (event_ok2 sc n) es) by (rewrite forallb_forall in Hev; rewrite Forall_forall; intros e He; apply event_b2_sound; apply Hev; exact He).
+    destruct (run_QB tb cf n sc (cfg_ok_b_sound cf Hcfg) es [] s He (initial_QB cf _ s (initial_b_sound s Hinit) Hd Hk)) as (_ & _ & [[_ HL] _]).
+    destruct HL as [LA _ _ _ _ _]. destruct (LA m Hm o Ho Hp) as ((F & M & C & L & V) & B & _ & _ & St). repeat split; assumption.
+  Qed.
+End StaticPending.
